@@ -212,6 +212,7 @@ out:
 /* ------------------------------------------------------------------ C04: outcome digest and post-exchange probing */
 static uint64_t LAST_OUTCOME;
 static unsigned long LAST_RECORDS;
+static uint64_t LAST_PARTS[5];
 
 struct probe_ctx {
 	struct sim *s;
@@ -230,6 +231,8 @@ static void probe_cb(const struct pfx_record *rec, void *d)
 	struct prec p;
 
 	prec_from_record(rec, &p);
+	if (getenv("LF_DEBUG"))
+		fprintf(stderr, "DBG rec fam%u %08x/%u-%u as%u own%d\n", p.fam, p.a[0], p.len, p.maxlen, p.asn, rec->socket == c->s->sock);
 	c->h += hbytes(rec->socket == c->s->sock ? 1 : 2, &p, sizeof(p)); /* order independent */
 	c->n++;
 	/* hostile prefix lengths only bite when the table is searched: query what was stored */
@@ -255,14 +258,22 @@ static void post_exchange_probe(struct sim *s)
 		unsigned int n = 0;
 
 		if (spki_table_search_by_ski(s->spkit, s->u->skis[i], &res, &n) == SPKI_SUCCESS) {
-			for (unsigned int j = 0; j < n; j++)
+			for (unsigned int j = 0; j < n; j++) {
+				if (getenv("LF_DEBUG"))
+					fprintf(stderr, "DBG key ski%d as%u spki %016llx\n", i, res[j].asn, (unsigned long long)hbytes(3, res[j].spki, SPKI_SIZE));
 				c.h += hbytes(3, res[j].spki, SPKI_SIZE) + res[j].asn;
+			}
 			c.n += n;
 			lrtr_free(res);
 		}
 	}
 	MON_RESUME();
 	LAST_RECORDS = c.n;
+	LAST_PARTS[0] = s->sent_hash;
+	LAST_PARTS[1] = s->trace_hash;
+	LAST_PARTS[2] = c.h;
+	LAST_PARTS[3] = (uint64_t)s->sock->state;
+	LAST_PARTS[4] = s->sock->serial_number;
 	LAST_OUTCOME = hmix(hmix(s->sent_hash, s->trace_hash), hmix(c.h, (uint64_t)s->sock->state * 7 + s->sock->serial_number));
 	CNT("c04/post_exchange_probes");
 }
@@ -937,6 +948,134 @@ void sim_noop_free(struct tr_socket *t)
 {
 	(void)t;
 }
+
+#ifdef VERIF_LIBFUZZER
+/* ------------------------------------------------------------------ C04: coverage-guided stream fuzzing (libFuzzer)
+ * input = one control byte + the byte stream the cache sends.  The control byte picks where the stream arrives (first
+ * answer / answer to a Serial Query after a genuine synchronisation / while the client idles), the interval mode, the
+ * cache version, whether the connection is closed afterwards and the second read segmentation.  The scenario seed is
+ * constant, so session id, serial and universe are the same in every execution and the fuzzer can learn them.
+ * Oracles as in the generator-driven mode: sanitizers + assertions, spin monitors, framing rule of the reference
+ * validator, outcome independent of read segmentation - a monitor verdict traps (VO.trap). */
+static const uint8_t *LF_DATA;
+static size_t LF_LEN;
+static uint8_t LF_CAP[8192];
+static size_t LF_CAPN;
+static bool LF_CAPTURE;
+
+static size_t lf_rawgen(struct sim *s, uint8_t *out, size_t cap, uint64_t fseed, int where)
+{
+	size_t n;
+
+	if (LF_CAPTURE) {
+		n = fuzz_rawgen(s, out, cap, fseed, where);
+		if (!LF_CAPN && n && n <= sizeof(LF_CAP)) {
+			memcpy(LF_CAP, out, n);
+			LF_CAPN = n;
+		}
+		return n;
+	}
+	n = LF_LEN < cap ? LF_LEN : cap;
+	memcpy(out, LF_DATA, n);
+	return n;
+}
+
+static void lf_scen(struct scen *sc, uint8_t ctl, uint64_t fseed)
+{
+	struct rng r;
+
+	rng_seed(&r, 0x1f022, 0);
+	gen_fuzz(sc, &r, ctl % 4, 0x1f022);
+	sc->cfg.rawgen = lf_rawgen;
+	sc->cfg.fuzz_seed = fseed;
+	sc->cfg.iv_mode = (ctl >> 2) & 3;
+	sc->cache_version = (ctl & 16) ? 0 : 1;
+	sc->cfg.raw_close_after = (ctl & 32) != 0;
+	sc->callbacks = true;
+}
+
+int LLVMFuzzerInitialize(int *argc, char ***argv);
+int LLVMFuzzerTestOneInput(const uint8_t *data, size_t len);
+
+int LLVMFuzzerInitialize(int *argc, char ***argv)
+{
+	const char *out = getenv("VERIF_FUZZ_OUT"), *sd = getenv("VERIF_FUZZ_SEEDDIR");
+	static struct scen sc;
+
+	(void)argc;
+	(void)argv;
+	VO.max_samples = 0;
+	vo_open(out ? out : "/dev/null");
+	VO.max_samples = 0;
+	if (sd) {
+		/* seed corpus: streams of the structure-aware generator, captured as the simulated cache sends them */
+		long n = getenv("VERIF_FUZZ_NSEEDS") ? atol(getenv("VERIF_FUZZ_NSEEDS")) : 256;
+
+		LF_CAPTURE = true;
+		VO.muted = true;
+		for (long i = 0; i < n; i++) {
+			char pth[4200];
+			uint8_t ctl = (uint8_t)(i * 37);
+			FILE *f;
+
+			LF_CAPN = 0;
+			VNOW = 1000000;
+			lf_scen(&sc, ctl, mix64(0x5eed, (uint64_t)i));
+			sc.cfg.chunk_rx = CH_MAX;
+			run_scen(&sc, 0x1f022, NULL);
+			if (!LF_CAPN)
+				continue;
+			snprintf(pth, sizeof(pth), "%s/seed-%04ld", sd, i);
+			f = fopen(pth, "wb");
+			if (f) {
+				fputc(ctl, f);
+				fwrite(LF_CAP, 1, LF_CAPN, f);
+				fclose(f);
+			}
+		}
+		VO.muted = false;
+		LF_CAPTURE = false;
+	}
+	VO.trap = "C04"; /* monitors of sibling properties stay diagnostic here, as in the generator-driven mode */
+	return 0;
+}
+
+int LLVMFuzzerTestOneInput(const uint8_t *data, size_t len)
+{
+	static struct scen sc;
+	static const int CHS[] = {CH_ONE, CH_RANDOM, CH_HEADER_SPLIT, CH_RANDOM};
+	uint64_t ref = 0, refp[5] = {0};
+	unsigned long refn = 0;
+	uint8_t ctl;
+
+	if (len < 2 || len > 6000)
+		return 0;
+	ctl = data[0];
+	LF_DATA = data + 1;
+	LF_LEN = len - 1;
+	for (int i = 0; i < 2; i++) {
+		VNOW = 1000000;
+		if (getenv("LF_DEBUG"))
+			fprintf(stderr, "DBG ---- run %d\n", i);
+		lf_scen(&sc, ctl, 0);
+		sc.cfg.chunk_rx = i == 0 ? CH_MAX : CHS[ctl >> 6];
+		VO.muted = i > 0;
+		run_scen(&sc, 0x1f022, NULL);
+		VO.muted = false;
+		if (i == 0) {
+			ref = LAST_OUTCOME;
+			refn = LAST_RECORDS;
+			memcpy(refp, LAST_PARTS, sizeof(refp));
+		} else if (LAST_OUTCOME != ref) {
+			viol("C04", "C04:outcome-depends-on-read-segmentation:libfuzzer", "the same byte stream read in other chunks gave a different outcome than with maximal reads (%016llx vs %016llx, %lu vs %lu records; bytes sent %d, state trace %d, table contents %d, final state %llu vs %llu, serial %llu vs %llu)",
+			     (unsigned long long)LAST_OUTCOME, (unsigned long long)ref, LAST_RECORDS, refn, refp[0] != LAST_PARTS[0], refp[1] != LAST_PARTS[1], refp[2] != LAST_PARTS[2],
+			     (unsigned long long)LAST_PARTS[3], (unsigned long long)refp[3], (unsigned long long)LAST_PARTS[4], (unsigned long long)refp[4]);
+		}
+	}
+	return 0;
+}
+#define main rtrsim_main_unused
+#endif
 
 int main(int argc, char **argv)
 {
